@@ -47,6 +47,17 @@ def frpsTest : Str := Str.ofString "frps.test"
 def otherTest : Str := Str.ofString "other.test"
 def loopback : Str := Str.ofString "127.0.0.1"
 
+/-- control transport of a `cert` op (absent = tcp) -/
+def wireProto (toks : List String) : Option Protocol :=
+  match wireKV toks "proto" with
+  | none => some .tcp
+  | some "tcp" => some .tcp
+  | some "kcp" => some .kcp
+  | some "ws" => some .websocket
+  | some "wss" => some .wss
+  | some "quic" => some .quic
+  | _ => none
+
 def wireStep (st : Unit) (tok : List String) (impl : String) : Unit × Verdict :=
   match tok with
   | ["reset"] => (st, verdictOf "-" impl)
@@ -105,29 +116,37 @@ def wireStep (st : Unit) (tok : List String) (impl : String) : Unit × Verdict :
     | _, _ => (st, .bad "raw")
   | "cert" :: rest =>
     match wireBool rest "force", wireBool rest "sca", wireBool rest "scert", wireBool rest "tls",
-          wireBool rest "custom", wireNat rest "cca", wireNat rest "sn", wireNat rest "ccert" with
-    | some f, some sca, some scert, some tls, some custom, some cca, some sn, some ccert =>
+          wireBool rest "custom", wireNat rest "cca", wireNat rest "sn", wireNat rest "ccert",
+          wireProto rest with
+    | some f, some sca, some scert, some tls, some custom, some cca, some sn, some ccert, some pr =>
       let s : ServerCfg := { force := f, trustedCA := sca, certGiven := scert }
+      -- whether the Login carries the right key (absent = yes)
+      let tokOk := wireBool rest "tok" != some false
       let c : ClientCfg :=
         { tlsEnable := tls, disableCustomFirstByte := !custom, trustedCA := cca != 0
-        , certGiven := ccert != 0
+        , certGiven := ccert != 0, protocol := pr
         , serverName := if sn = 1 then frpsTest else if sn = 2 then otherTest else []
         , serverAddr := loopback }
       let p : Pki :=
         { srvCertIssuer := some 1, srvCertNames := [frpsTest, loopback], cliRootCA := cca
         , cliCertIssuer := if ccert = 0 then none else some ccert, srvClientCA := 1 }
-      let up := sessionUp s c p
-      -- property: no session that the identity / force rules forbid
-      let prop := !(impl == "up=1" && !up)
-      (st, verdictOf s!"up={bit up}" impl (some prop))
-    | _, _, _, _, _, _, _, _ => (st, .bad "cert")
+      let up := sessionUpOn s c p
+      -- a Login with a wrong key that reaches `handleConnection` is answered by LoginResp{Error}
+      let m := if up then (if tokOk then "up=1" else "up=0:loginerr") else "up=0"
+      -- property: frps interprets a message (answers with a frame, accepting or not) only for a
+      -- peer the identity / force rules admit on that transport
+      let interpreted := impl == "up=1" || impl == "up=0:loginerr"
+      (st, verdictOf m impl (some (C05.interpretedOk s c p interpreted)))
+    | _, _, _, _, _, _, _, _, _ => (st, .bad "cert")
   | "wire" :: rest =>
     match wireBool rest "tls", wireBool rest "custom", wireBool rest "enc", wireBool rest "venc",
           wireBool rest "mux", wireBool rest "tok", wireBool rest "ws" with
     | some tls, some custom, some enc, some venc, some mux, some tok, some ws =>
+      -- q=1: protocol quic through the recording UDP relay (absent = 0)
+      let quicOn := wireBool rest "q" == some true
       let c : ClientCfg :=
         { tlsEnable := tls, disableCustomFirstByte := !custom, trustedCA := false, certGiven := false
-        , protocol := if ws then .websocket else .tcp
+        , protocol := if quicOn then .quic else if ws then .websocket else .tcp
         , serverName := [], serverAddr := loopback, tcpMux := mux }
       let d := clientDial c
       let cfg : PathCfg := { tls := d.tls, internal := false, useEncryption := enc, tokenEmpty := !tok }
@@ -136,7 +155,9 @@ def wireStep (st : Unit) (tok : List String) (impl : String) : Unit × Verdict :
       let o := C05.wireModel cfg
       -- websocket: the hook list starts with the upgrade request "GET /~!frp" (0x47); the client's
       -- frames are masked, the server's are not, and every clear marker also travels server→client
-      let fb := if (clientHooks c).head? == some .websocket then 0x47 else (clientFirstBytes c).head!
+      -- quic: the first datagram is a long-header Initial packet (0xC0 | protected low bits, canonicalised)
+      let fb := if quicOn then 0xC0
+                else if (clientHooks c).head? == some .websocket then 0x47 else (clientFirstBytes c).head!
       let dec := if !d.tls && !mux && !ws then "1" else "na"
       let m := s!"up=1;fb={fb};tok={bit o.tok};sk={bit o.sk};pwd={bit o.pwd};huser={bit o.huser};user={bit o.user};pay={bit o.pay};vpay={bit (payloadClear vcfg)};upay={bit (onNetworkPath cfg && contentClear cfg .udpPacket)};dec={dec}"
       let prop : Option Bool :=
